@@ -27,6 +27,7 @@ func init() {
 			{"C03/deny-path", "refused host: CHANNEL_RESPONSE with E_PROXY_RAP_ACCESSDENIED (0x800759DA), no dial, tunnel ends", c03DenyPath},
 			{"C03/wiring", "main installs the host check (session-wrapped under token auth) before registering the handler", func(c *Ctx) { wiringRule(c, "C03/wiring") }},
 			{"C03/name-decoding", "the requested server name is decoded completely: the UTF-16 decoder visits every code unit and removes at most one trailing NUL", c03NameDecoding},
+			{"C03/hosts-immutable", "the configured host list the policy compares against is never rewritten while serving requests", func(c *Ctx) { sharedSliceWrites(c, "C03/hosts-immutable") }},
 		},
 	})
 }
@@ -401,21 +402,26 @@ func c03DenyPath(c *Ctx) {
 // client sent. Structural conditions: the decoding loop has no exit but its length test, every
 // iteration appends to the result, and the only shortening afterwards is one trailing element
 // outside any loop.
-func c03NameDecoding(c *Ctx) {
-	rule := "C03/name-decoding"
+func c03NameDecoding(c *Ctx) { nameDecodingAs(c, "C03/name-decoding", "Processor.channelRequest", 0) }
+
+// nameDecodingAs: result resIdx of the request parser `user` is DecodeUTF16 of packet bytes, and
+// DecodeUTF16 decodes completely (see c03NameDecoding).
+func nameDecodingAs(c *Ctx, rule, user string, resIdx int) {
 	fn := c.Fn("cmd/rdpgw/protocol", "DecodeUTF16")
 	key := shortFn(fn)
-	// channelRequest uses it for the server name
-	cr := c.Fn("cmd/rdpgw/protocol", "Processor.channelRequest")
+	cr := c.Fn("cmd/rdpgw/protocol", user)
 	used := false
 	for _, r := range returnsOf(cr) {
-		for _, o := range c.originsDeep(r.Results[0], 0, protoPkg+".DecodeUTF16") {
+		if resIdx >= len(r.Results) {
+			continue
+		}
+		for _, o := range c.originsDeep(r.Results[resIdx], 0, protoPkg+".DecodeUTF16") {
 			if o.Kind == "call" && calleeName(o.Call) == protoPkg+".DecodeUTF16" {
 				used = true
 			}
 		}
 	}
-	c.Check(used, rule, "channelRequest server", cr.Pos(), "the server name is DecodeUTF16 of the name bytes of this packet", "the server name returned by channelRequest does not come from DecodeUTF16")
+	c.Check(used, rule, cr.Name()+" string", cr.Pos(), "the string is DecodeUTF16 of the field bytes of this packet", "the string returned by "+cr.Name()+" does not come from DecodeUTF16")
 	// the loop
 	var header *ssa.BasicBlock
 	inLoop := map[*ssa.BasicBlock]bool{}
@@ -488,20 +494,49 @@ func c03NameDecoding(c *Ctx) {
 
 // (body of the terminator scan, kept as a closure factory for readability)
 func c03ShortScan(c *Ctx, rule, key string, nShort *int) func(in ssa.Instruction) {
+	// isResult: v is (a reslice of) the decoded bytes — Buffer.Bytes(), a parameter of a helper that
+	// is handed them, or a phi of those
+	var isResult func(v ssa.Value, d int) bool
+	isResult = func(v ssa.Value, d int) bool {
+		if d > 5 {
+			return false
+		}
+		switch x := strip(v).(type) {
+		case *ssa.Call:
+			return calleeName(x) == "(*bytes.Buffer).Bytes"
+		case *ssa.Slice:
+			return isResult(x.X, d+1)
+		case *ssa.Phi:
+			for _, e := range x.Edges {
+				if e != ssa.Value(x) && isResult(e, d+1) {
+					return true
+				}
+			}
+		case *ssa.Parameter:
+			if _, ok := x.Type().Underlying().(*types.Slice); ok && theCtx != nil {
+				for _, u := range theCtx.upValues(x, 0) {
+					if u != ssa.Value(x) && isResult(u, d+1) {
+						return true
+					}
+				}
+			}
+		}
+		return false
+	}
 	return func(in ssa.Instruction) {
 		sl, ok := in.(*ssa.Slice)
-		if !ok || sl.High == nil {
+		if !ok || !isResult(sl.X, 0) {
 			return
 		}
-		if _, isBytes := sl.Type().Underlying().(*types.Slice); !isBytes {
-			return
-		}
-		hb, ok := sl.High.(*ssa.BinOp)
-		if !ok || hb.Op != token.SUB {
+		if sl.Low == nil && sl.High == nil {
 			return
 		}
 		*nShort++
-		k, isC := constInt(hb.Y)
-		c.Check(isC && k == 1 && !inCycle(sl.Block()) && isLenOf(hb.X, sl.X), rule, key+" terminator#"+itoa(*nShort), sl.Pos(), "exactly one trailing element (the NUL terminator) is removed, once", "more than the one terminator can be stripped from the decoded name (repeated or wider cut): names that differ only in trailing NULs become equal")
+		good := false
+		if hb, ok := sl.High.(*ssa.BinOp); ok && hb.Op == token.SUB && sl.Low == nil {
+			k, isC := constInt(hb.Y)
+			good = isC && k == 1 && !inCycle(sl.Block()) && isLenOf(hb.X, sl.X)
+		}
+		c.Check(good, rule, key+" terminator#"+itoa(*nShort), sl.Pos(), "exactly one trailing element (the NUL terminator) is removed, once", "the decoded string is cut by something other than removing its one trailing terminator (first NUL, repeated strip, wider cut): different wire strings become the same name")
 	}
 }
